@@ -42,6 +42,11 @@ type cvLayout struct {
 const cvRepo = "conv/repo"
 
 // writeLayout materialises a layout below root/conv/repo.
+// cvBakTag is an ordinary tag that starts with the fallback tag of m2.
+func cvBakTag(cat *Catalogue) string {
+	return "sha256-" + digest.SHA256.FromBytes(cat.C["m2"].Bytes).Encoded() + ".bak"
+}
+
 func writeLayout(root string, cat *Catalogue, L cvLayout, untagged bool) error {
 	dir := filepath.Join(root, cvRepo)
 	if err := os.MkdirAll(filepath.Join(dir, "blobs", "sha256"), 0o755); err != nil {
@@ -127,6 +132,11 @@ func writeLayout(root string, cat *Catalogue, L cvLayout, untagged bool) error {
 		// an already converted, accurate response of subject m1 listing a1
 		addIndex([]types.Descriptor{artDesc("a1", "ok")}, map[string]string{types.AnnotReferrerSubject: subjDig[s].String()})
 	}
+	if !untagged {
+		// an ordinary tag whose name merely starts like a fallback tag (a saved copy of one), pointing to an index: it is kept
+		addIndex([]types.Descriptor{{MediaType: mtLong[cat.C["m1"].Def.MT], Digest: subjDig["m1"], Size: int64(len(cat.C["m1"].Bytes))}},
+			map[string]string{types.AnnotRefName: cvBakTag(cat)})
+	}
 	if L.Conv {
 		idx.Annotations = map[string]string{types.AnnotReferrerConvert: "true"}
 	}
@@ -170,6 +180,7 @@ func cmdConvert(args []string) {
 	sc := bufio.NewScanner(in)
 	sc.Buffer(make([]byte, 1<<20), 1<<26)
 	k, events, nlay, images := 0, 0, 0, 0
+	nhung := 0
 	oo := ObsOpts{Refs: true}
 	for sc.Scan() {
 		if strings.TrimSpace(sc.Text()) == "" {
@@ -187,6 +198,9 @@ func cmdConvert(args []string) {
 			if h%uint64(*pick) != 0 {
 				continue
 			}
+		}
+		if nhung >= 12 {
+			break // every further layout of this kind would wait for the watchdog again: the verdict (terminates) is clear
 		}
 		var L cvLayout
 		if err := json.Unmarshal([]byte(sc.Text()), &L); err != nil {
@@ -226,7 +240,7 @@ func cmdConvert(args []string) {
 				}
 				events++
 				_ = enc.Encode(map[string]any{"k": "conv", "i": events, "lid": k, "layout": L, "store": store, "phase": "gc", "obs": o, "hung": hung,
-					"conv": false, "changed": true, "n": 0, "fsop": "", "variant": "", "idem": sum1 == sum2, "exists": statErr == nil})
+					"conv": false, "changed": true, "n": 0, "fsop": "", "variant": "", "idem": sum1 == sum2, "exists": statErr == nil, "bak": ""})
 				if !hung {
 					closeGuarded(srv)
 				}
@@ -251,7 +265,7 @@ func cmdConvert(args []string) {
 				}
 				events++
 				_ = enc.Encode(map[string]any{"k": "conv", "i": events, "lid": k, "layout": L, "store": store, "phase": phase, "obs": o, "hung": hung,
-					"conv": convMarked(root), "changed": treeSum(root, "") != before, "n": 0, "fsop": "", "variant": "", "idem": true, "exists": true})
+					"conv": convMarked(root), "changed": treeSum(root, "") != before, "n": 0, "fsop": "", "variant": "", "idem": true, "exists": true, "bak": "?" + cvBakTag(cat)})
 				// a new server on every crash image of the conversion has to end up with the same result
 				for _, sn := range snaps {
 					rsrv := NewSrv(cfg, sn.dir)
@@ -260,7 +274,7 @@ func cmdConvert(args []string) {
 					events++
 					images++
 					_ = enc.Encode(map[string]any{"k": "conv", "i": events, "lid": k, "layout": L, "store": store, "phase": "crash", "obs": ro, "hung": rhung,
-						"conv": convMarked(sn.dir), "changed": true, "n": sn.n, "fsop": sn.op, "variant": sn.variant, "idem": true, "exists": true})
+						"conv": convMarked(sn.dir), "changed": true, "n": sn.n, "fsop": sn.op, "variant": sn.variant, "idem": true, "exists": true, "bak": "?" + cvBakTag(cat)})
 					closeGuarded(rsrv)
 					_ = os.RemoveAll(sn.dir)
 				}
@@ -268,6 +282,7 @@ func cmdConvert(args []string) {
 					_ = os.RemoveAll(snapDir)
 				}
 				if hung {
+					nhung++
 					break // the server is stuck: a new one would be needed, the verdict is already clear
 				}
 			}
